@@ -1,4 +1,5 @@
 import SJ.Proofs.GoNumber
+import SJ.Proofs.GoStage2Lemmas
 import SJ.Model.Stage2
 set_option linter.unusedVariables false
 set_option linter.unusedSimpArgs false
@@ -200,5 +201,54 @@ theorem annotate_previousloc_sim (m : M) (buf : Bytes) (at_ val : UInt64) (fuel 
     simp only [goParsedJson_annotate_previousloc, stEnv, runFun, exec, exec1, evalE, List.cons_append, List.nil_append,
       Env.get, String.reduceAppend, binop]
     simp [h', -Int.ofNat_lt]
+
+/-! ## `parseString` -/
+
+/-- the store of `parseString(pj, idx, maxStringSize, needCopy)`; `cap(strs)` is an input (see `GoSem.Lang`) -/
+def psEnv (m : M) (buf : Bytes) (idx max : UInt64) (nc : Bool) (cap : Int) : Env :=
+  stEnv m buf ++ [("idx", .u64 idx), ("maxStringSize", .u64 max), ("needCopy", .bool nc), ("cap(strs)", .int cap)]
+
+def psHead : List Stmt := goparseString.body.take 3
+def psTail : List Stmt := goparseString.body.drop 3
+theorem ps_body : goparseString.body = psHead ++ psTail := rfl
+
+/-- the store after the slicing and padding of the message: `buf` holds `pb` -/
+structure PSFrame (e : Env) (n : Nat) (strs msg pb : Bytes) (idx max : UInt64) (nc : Bool) (cap : Int) : Prop where
+  lim : e.get "pj.lim" = some (.int n)
+  strs : e.get "Strings.B" = some (.bytes strs)
+  msg : e.get "Message" = some (.bytes msg)
+  buf : e.get "buf" = some (.bytes pb)
+  idx : e.get "idx" = some (.u64 idx)
+  max : e.get "maxStringSize" = some (.u64 max)
+  nc : e.get "needCopy" = some (.bool nc)
+  cap : e.get "cap(strs)" = some (.int cap)
+
+/-- `copy(make([]byte, N), x)` for `len(x) ≤ N`: `x` followed by zeros -/
+theorem copy_pad (x : Bytes) (N : Nat) (h : x.size ≤ N) :
+    x.extract 0 (min (Array.replicate N (0 : UInt8)).size x.size) ++
+      (Array.replicate N (0 : UInt8)).extract (min (Array.replicate N (0 : UInt8)).size x.size) (Array.replicate N (0 : UInt8)).size =
+    x ++ Array.replicate (N - x.size) 0 := by
+  simp only [Array.size_replicate, Nat.min_eq_right h]
+  congr 1
+  · simp
+  · apply Array.ext'
+    simp
+
+/-- `buf := pj.Message[idx:]` and the padding: whatever branch is taken, `buf` is the suffix followed by zero bytes -/
+theorem ps_head (m : M) (buf : Bytes) (idx max : UInt64) (nc : Bool) (cap : Int) (fuel : Nat)
+    (hidx : idx.toNat ≤ buf.size) (h63 : idx.toNat < 2^63) :
+    ∃ n e1, exec goFuns fuel psHead ⟨psEnv m buf idx max nc cap, m.tape⟩ = .normal ⟨e1, m.tape⟩ ∧
+      PSFrame e1 m.tape.size m.strings buf (buf.extract idx.toNat buf.size ++ Array.replicate n 0) idx max nc cap := by
+  have hlo : (idx.toNat : Int) ≤ buf.size := by omega
+  by_cases hc : ((buf.size - idx.toNat : Nat) : Int) - toInt64 max < 64
+  · by_cases hbig : buf.size - idx.toNat > 448
+    · refine ⟨64, _, ?_, ?_⟩
+      · simp [psHead, goparseString, psEnv, stEnv, toInt64_small _ h63, hlo, hc]
+        trace_state
+        sorry
+      · sorry
+    · sorry
+  · sorry
+
 
 end SJ.GoStage2
